@@ -791,6 +791,20 @@ def _match(t, p, b):
         b.clear()
         b.update(saved)
         return False
+    if pk == 'binop' and p[1] in ('+', '*'):
+        # IEEE addition and multiplication commute: match either operand order
+        if t[1] != p[1]:
+            return False
+        saved = dict(b)
+        if _match(t[2], p[2], b) and _match(t[3], p[3], b):
+            return True
+        b.clear()
+        b.update(saved)
+        if _match(t[2], p[3], b) and _match(t[3], p[2], b):
+            return True
+        b.clear()
+        b.update(saved)
+        return False
     if pk in ('binop', 'unary', 'cmp'):
         if t[1] != p[1]:
             return False
